@@ -293,12 +293,20 @@ impl Peer {
             return Err(Error::from(ErrorKind::InvalidInput));
         }
 
-        if self.public_key.is_some() {
-            assert_eq!(
-                response.public_key,
-                self.public_key.unwrap(),
-                "This peer instance is to handle a peer with a different public key"
-            );
+        if let Some(known_key) = self.public_key {
+            if known_key != response.public_key {
+                // this entry already belongs to another key: a remote peer must not be able
+                // to crash the node by answering a later challenge with a different key
+                warn!(
+                    "peer : {:?} answered with key : {:?} but is known under key : {:?}. disconnecting",
+                    self.index,
+                    response.public_key.to_base58(),
+                    known_key.to_base58()
+                );
+                self.mark_as_disconnected(current_time);
+                io_handler.disconnect_from_peer(self.index).await?;
+                return Err(Error::from(ErrorKind::InvalidInput));
+            }
         }
 
         self.block_fetch_url = response.block_fetch_url;
